@@ -334,6 +334,7 @@ func genC08(run *hx.Run, r *hx.Rng) {
 	genKernels(run, r, run.N/10)
 	genFuzz(run, r, run.N*3/10)
 	genNodeInfoStruct(run, r, run.N/4)
+	genRecords(run, r, run.N/2)
 	hangBlock(run, r) // last: if it deadlocks the validator the harness reports and exits
 }
 
@@ -603,6 +604,8 @@ func runFuzzTarget(run *hx.Run, target string, b []byte) {
 			_ = (&records.SignedNodeInfo{}).Consume(b)
 			_ = (&records.NodeInfo{}).Consume(b)
 		})
+	case "enr-record":
+		guarded(run, target, b, func() { enrRecordTarget(b) })
 	case "subnets":
 		guarded(run, target, b, func() { _, _ = records.Subnets{}.FromString(string(b)) })
 	case "subnets-use":
@@ -865,7 +868,8 @@ func mutateBytes(r *hx.Rng, b []byte) []byte {
 func genFuzz(run *hx.Run, r *hx.Rng, n int) {
 	fuzzSetup()
 	seeds := fuzzSeeds(run, r)
-	targets := []string{"pubsub", "signed", "net", "queue", "nodeinfo", "subnets", "subnets-use"}
+	targets := []string{"pubsub", "signed", "net", "queue", "nodeinfo", "subnets", "subnets-use", "enr-record"}
+	seeds["enr-record"] = enrSeeds(r)
 	for i := 0; i < n; i++ {
 		tg := targets[r.Intn(len(targets))]
 		var b []byte
